@@ -130,11 +130,13 @@ fn gen_const(rng: &mut Rng, depth: usize) -> Value {
     }
 }
 
-const EXPRS: [&str; 14] = [
+const EXPRS: [&str; 17] = [
     "i1", "a + b * i2", "if x then \"y\" else none", "f(a).b.0", "[i1, {k: d2.5}]", "a contains \"s\" and !b", "\"multi\nline\"", "(i1)", "x == \"// slashes in a string\"", ":sym | i4",
     // a comment-looking line inside a multi-line string literal
     "\"first\n// inside a string literal\nlast\"",
     "lowercase(name) in [\"a\", \"b\"]",
+    // operators directly followed by a string that spans lines and contains a comment-looking line
+    "total /\"per\n// not a comment\nunit\"", "a ==\"x\n//y\" and b /\"/\"", "x /// a real trailing comment after a division\n y",
     // invalid expressions
     "i1 +", "a b",
 ];
